@@ -185,7 +185,7 @@ def run(facts, rep, tier):
                 why = exempt(a, b, cls, fld)
                 if why: ex_used[why] += 1; continue
                 w, o = (a, b) if a.mode == 'W' else (b, a)
-                key = f'RACE|{strip_targs(cls)}::{fld}|{strip_targs(w.fn)}|{strip_targs(w.root[1])}'
+                key = f'RACE|{strip_targs(cls)}::{fld}|{common.finding_fn(w)}|{strip_targs(w.root[1])}'
                 if key not in conflicts:
                     conflicts[key] = (w, o, pa if w is a else pb, pb if w is a else pa)
         inst = f'{cls}::{fld} ({len(accs)} accesses' + (', atomic' if is_atomic else '') + ''.join(f', {v}x {k}' for k, v in ex_used.items()) + ')'
